@@ -4,4 +4,5 @@ package main
 var checks = map[string]checkDef{
 	"C01": {Harness: "c01", Instrument: true},
 	"C20": {Harness: "c01", Instrument: true},
+	"C06": {Harness: "c06", Instrument: true},
 }
